@@ -10,4 +10,14 @@ McValues    == {V("nil", TRUE, "null"), V("str_quotes", TRUE, "string"), V("map_
                 V("chan", FALSE, "-"), V("struct_func_field", FALSE, "-"), V("float_nan", FALSE, "-")}
 McMessages  == {"text", "jsonobj-nocode", "jsonobj-strcode"}
 McServers   == {"Oryx", "VerifSrv/1.0"}
+McForms     == {"handler", "write"}
+\* the life of one handler object (MC_HttpApi_hist*.cfg): few classes, several requests. Two different marshalable
+\* classes, two unmarshalable ones: valid v1 -> valid v2 -> unmarshalable -> valid is among the behaviours
+HistCallbacks == {[present |-> FALSE, name |-> ""], [present |-> TRUE, name |-> "cb"]}
+HistCodes     == {"1", "-9223372036854775808"}
+HistStatuses  == {404}
+HistValues    == {V("map_nested", TRUE, "object"), V("str_quotes", TRUE, "string"),
+                  V("chan", FALSE, "-"), V("float_nan", FALSE, "-")}
+HistMessages  == {"text"}
+HistServers   == {"Oryx"}
 =============================================================================
